@@ -387,20 +387,9 @@ def d4_pad(chk, repo):
                               for kw in ("dims", "units", "tolerance_factor")))
         chk.ob("mesh.Mesh.pad::keeps-names", okd, "C07.D4", "dims, units and tolerance must be kept", v.f, r)
     f = FV(repo, "field.Field.pad")
-    loops = [s for s in f.stmts() if isinstance(s, ast.For)]
-    ok = False
-    if len(loops) == 1:
-        lp = loops[0]
-        it = f.term(lp.iter, at=lp)
-        kv = each(f, it)
-        sts = [s for s in lp.body if isinstance(s, ast.Assign) and isinstance(s.targets[0], ast.Subscript)]
-        if len(sts) == 1 and f.eq(it, f.spec("pad_width.items()")):
-            idx = f.ev._index(sts[0].targets[0].slice, f.cfg.node(sts[0]), None)
-            val = f.term(sts[0].value, at=sts[0])
-            ok = f.eq(idx, f.spec("self.mesh.region._dim2index(kv[0])", env={"kv": kv})) is False and False
-            key = f.ctx.mk(("unpack", 0), (kv,))
-            valw = f.ctx.mk(("unpack", 1), (kv,))
-            ok = f.eq(idx, f.spec("self.mesh.region._dim2index(k)", env={"k": key})) and f.eq(val, valw)
+    want_map = f.spec("{self.mesh.region._dim2index(k): w for k, w in pad_width.items()}")
+    ok = any(f.eq(t_, want_map) for st_, nm_, t_ in simple_assigns(f)) or \
+        any(f.ctx.mentions_or_eq(f.ev.term(r_.value, at=r_), want_map) for r_ in f.returns() if r_.value is not None)
     chk.ob("field.Field.pad::width-at-axis-of-direction", ok, "C07.D4",
            "the (before, after) widths of direction d must be placed at axis _dim2index(d) of the padding sequence", f.f)
     for r, x in cm.returned_news(f):
